@@ -834,7 +834,9 @@ def main(tier, seed):
             findings[cls] = (key, text + " (checker verdict vs catalogue; API run did not show a failure)",
                              replay_obj(seed, tier, lines[gi], tags[gi], model[gi], real[gi], by_case.get(gi, []), "static"), 0)
     for l in mfail:
-        findings.setdefault("M:" + l.split()[2], ("C12-burst-misuse", "burst misuse check failed: " + l, {"property": PID, "kind": "misuse", "line": l}, 1))
+        what = re.sub(r"[^a-z0-9]+", "-", l.split(" ", 2)[2].split(" ret=")[0].strip().lower()).strip("-")
+        findings.setdefault("M:" + what, ("C12-api-sequence-" + what, "API sequence check failed: " + l,
+                                          {"property": PID, "kind": "misuse", "line": l}, 1))
     for l in dfail:
         w = l.split()
         findings.setdefault("DA:" + w[3] + ":" + w[4], ("C12-direct-api-" + w[3] + "-" + w[4], "direct API: " + l,
@@ -899,7 +901,7 @@ def replay(path):
         mode = "m" if r["kind"] == "misuse" else "d"
         p = sh([exe, mode], env=common.lib_env(), timeout=900)
         w = r["line"].split()
-        key = " ".join(w[1:5]) if mode == "d" else " ".join(w[1:3])
+        key = " ".join(w[1:5]) if mode == "d" else r["line"].split(" ret=")[0].split(" ", 1)[1]
         now = [l for l in p.stdout.splitlines() if key in l]
         bad = [l for l in now if not l.rstrip().endswith("OK")]
         print("\n".join(now))
